@@ -183,6 +183,9 @@ class EngineAI:
             raise AnalysisError('instance floor not met: _object_map has %d stored classes' % len(self.objmap))
         self.alltypes = frozenset(self.objmap)
         self.fields = {t: set(self.pie.fields(c)) for t, c in self.objmap.items()}
+        self.unresolved = {}     # root handler -> guards on tracked objects the analysis could not read
+        # objects that came out of a query never ran __init__
+        self.loaded_fields = {t: set(self.pie.loaded_fields(c)) for t, c in self.objmap.items()}
         self.allnames = self.pol.names
         tagtab = attribute_name_tag_table(src)
         self.tag2name = {t: n for n, t in tagtab}
@@ -308,7 +311,7 @@ class Interp:
             b = self.ev(e.value, st)
             if isinstance(b, Obj):
                 var = e.value.id if isinstance(e.value, ast.Name) else None
-                missing = sorted(t for t in b.types if e.attr not in ai.fields[t])
+                missing = sorted(t for t in b.types if e.attr not in (ai.loaded_fields if b.origin == 'loaded' else ai.fields)[t])
                 self.ev_event('attr_read', e, var=var, attr=e.attr, missing=missing, obj=b.describe())
                 if var:
                     if e.attr == 'cryptographic_usage_masks':
@@ -582,7 +585,7 @@ class Interp:
                 if fname == 'getattr' and len(e.args) >= 3:
                     pass       # a default is supplied: no AttributeError
                 elif fname == 'getattr':
-                    missing = sorted(t for t in o.types if fld.a not in ai.fields[t])
+                    missing = sorted(t for t in o.types if fld.a not in (ai.loaded_fields if o.origin == 'loaded' else ai.fields)[t])
                     self.ev_event('attr_read', e, var=ov, attr=fld.a, missing=missing, obj=o.describe())
                 elif fname == 'setattr':
                     self.mutation(e, ov, fld.a, 'setattr', e.args[2] if len(e.args) > 2 else None, st)
@@ -1034,6 +1037,8 @@ class Interp:
                         if not ts:
                             return None
                         env[lv.b] = o.w(types=ts)
+                    elif vals is None and not (isinstance(r, ast.Constant) and r.value is None):
+                        self.unresolved_guard(test, 'object type compared with a value that is not a constant here')
                     return st
                 if lv.a == 'state':
                     em = enum_member(r, 'State') or self._const_member(rv, 'State')
@@ -1055,6 +1060,10 @@ class Interp:
                             if not ss:
                                 return None
                             env[lv.b] = o.w(states=ss)
+                        else:
+                            self.unresolved_guard(test, 'state compared with values that are not constants here')
+                    elif not (isinstance(r, ast.Constant) and r.value is None) and not em:
+                        self.unresolved_guard(test, 'state compared with a value that is not a constant here')
                     return st
             # name in/not in (<name constants>): a lookup table's keys written out
             if isinstance(op, (ast.In, ast.NotIn)) and isinstance(lv, Name) and isinstance(l, ast.Name) and isinstance(r, (ast.Tuple, ast.List, ast.Set)) and r.elts:
@@ -1092,8 +1101,20 @@ class Interp:
                 if c and (isinstance(op, ast.In) == pol):
                     o = env[rv.b]
                     env[rv.b] = o.w(bits=o.bits | {c})
+                if not c:
+                    self.unresolved_guard(test, 'usage mask membership of a value that is not a constant here')
                 return st
         return st
+
+    def unresolved_guard(self, test, what):
+        """a test on the type / state / usage mask of a tracked object whose other operand the analysis cannot resolve to constants: nothing
+        is refined, so what the rules conclude about the object further down this handler is weaker than what the code establishes - the
+        rules that would report there end with ANALYSIS-ERROR instead (a guard that cannot be read is not a missing guard)"""
+        root = (self.ctx + (self.fn.name,))[0]
+        self.ai.unresolved.setdefault(root, [])
+        txt = 'line %s: %s (%s)' % (getattr(test, 'lineno', '?'), U(test)[:100], what)
+        if txt not in self.ai.unresolved[root]:
+            self.ai.unresolved[root].append(txt)
 
     @staticmethod
     def _const_member(v, enum_cls):
